@@ -66,9 +66,8 @@ REBUILD_VARIANTS = ["same_nbins", "other_closed", "to_unbinned", "to_binned", "f
 
 
 def gen_case(prng: Prng, tier: str, i: int) -> dict:
-    workload = WORKLOADS[i % len(WORKLOADS)]
-    if i % 7 == 6 and (i // 7) % 2 == 1:
-        workload = PAR_WORKLOADS[(i // 14) % len(PAR_WORKLOADS)]
+    kinds = WORKLOADS + PAR_WORKLOADS
+    workload = kinds[i % len(kinds)]
     base = workload[4:] if workload.startswith("par_") else workload
     if workload.startswith("par_"):
         return dict(
@@ -104,7 +103,7 @@ def gen_case(prng: Prng, tier: str, i: int) -> dict:
 
 
 def gen_cases(tier: str, verif_seed: int, runs: int | None = None) -> list[dict]:
-    n = runs if runs is not None else (56 if tier == "quick" else 3500)
+    n = runs if runs is not None else (66 if tier == "quick" else 3300)
     return [gen_case(Prng(mix(verif_seed, PROP, i)), tier, i) for i in range(n)]
 
 
@@ -281,8 +280,14 @@ class Scenario:
                 if w == "rebuild":
                     cat = yaw.Catalog(os.path.join(self.tpl, "cat"), max_workers=1)
                     self._build(cat, old_b)
+                # a second catalog on the same centres: the reference sample when the catalog under
+                # test is used unbinned (as the unknown sample of a cross-correlation)
+                self.aux_rec = _records(seed + 7, max(12, case["n_old"]), EDGES_A)
+                _make_catalog(os.path.join(self.tpl, "aux"), self.aux_rec, self.centers)
+                self.fresh_meas: dict[str, object] = {}
                 for label, b in self.binnings.items():
                     self.fresh_trees[label] = self._fresh_tree_state(b)
+                    self.fresh_meas[label] = self._fresh_measurement(b)
             elif w in ("corrfunc_file", "corrdata_files"):
                 pa, pb = os.path.join(root, "srcA"), os.path.join(root, "srcB")
                 ca = _make_catalog(pa, self.new, self.centers)
@@ -371,6 +376,37 @@ class Scenario:
         shutil.rmtree(tmp, ignore_errors=True)
         return st
 
+    def _measure(self, cat_dir: str, aux_dir: str, binning):
+        """A measurement through the public API that uses the catalog's trees for ``binning``:
+        binned -> autocorrelation, unbinned -> the catalog is the unknown sample of a cross-correlation."""
+        import yaw
+
+        cat = yaw.Catalog(cat_dir, max_workers=1)
+        if binning is None:
+            aux = yaw.Catalog(aux_dir, max_workers=1)
+            cfg = wl.make_config(dict(rmin=0.5, rmax=5.0, unit="deg", edges=EDGES_A))
+            cfs = yaw.crosscorrelate(cfg, aux, cat, unk_rand=cat, max_workers=1)
+        else:
+            cfg = wl.make_config(dict(rmin=0.5, rmax=5.0, unit="deg", edges=list(binning[0]), closed=binning[1]))
+            cfs = yaw.autocorrelate(cfg, cat, cat, max_workers=1)
+        return [orc.corrfunc_state(cf) for cf in cfs]
+
+    def _fresh_measurement(self, binning):
+        from sim.scenes import strip_derived
+
+        tmp = os.path.join(self.root, "freshm")
+        shutil.rmtree(tmp, ignore_errors=True)
+        os.makedirs(tmp)
+        for name in ("cat", "aux"):
+            shutil.copytree(os.path.join(self.tpl, name), os.path.join(tmp, name))
+        strip_derived(tmp, meta=False, trees=True)
+        try:
+            return ("ok", self._measure(os.path.join(tmp, "cat"), os.path.join(tmp, "aux"), binning))
+        except Exception as err:  # noqa: BLE001 - e.g. the out-of-scope empty-bin defect: then no expectation
+            return ("raises", type(err).__name__)
+        finally:
+            shutil.rmtree(tmp, ignore_errors=True)
+
     # ---- the workload (runs in the workload child, shim armed)
     def work(self, workdir: str) -> None:
         import yaw
@@ -447,6 +483,17 @@ class Scenario:
                 if msg:
                     return dict(cls="SILENT_WRONG", outcome="stale_trees", next_use=f"build_trees({which} binning)",
                                 detail=f"trees used for the {which} binning differ from freshly built ones: {msg}")
+                # and a measurement through the public API on the surviving caches
+                status, expect = self.fresh_meas[which]
+                if status == "ok":
+                    try:
+                        got = self._measure(target, os.path.join(workdir, "aux"), b)
+                    except Exception as err:  # noqa: BLE001
+                        return dict(cls="ERROR", detail=f"measurement({which}): {type(err).__name__}")
+                    msg = orc.states_equal(expect, got)
+                    if msg:
+                        return dict(cls="SILENT_WRONG", outcome="wrong_measurement", next_use=f"measurement({which} binning)",
+                                    detail=f"measurement with the {which} binning on the surviving cache differs from fresh caches: {msg}")
             if w == "overwrite" and label == "old":
                 # behaves as never started: a measurement on it must equal fresh(old)
                 try:
